@@ -264,6 +264,13 @@ func runC02(c *Ctx) error {
 			c02One(c, m, cnCase{Seed: uint64(7 + mode), Actions: acts})
 		}
 	}
+	// directed: a re-run's result computed and then refused by a middleware, once; and the second datum changed while a
+	// re-run caused by another change is under way (the cached Expensive value is invalidated before it is looked up)
+	c02One(c, m, cnCase{Seed: 21, Actions: []cnAction{{Op: "subscribe", ID: 1, Query: 0}, {Op: "settle"}, {Op: "vetoOnce"}, {Op: "settle"}, {Op: "echo", ID: 2}}})
+	c02One(c, m, cnCase{Seed: 22, Actions: []cnAction{{Op: "subscribe", ID: 1, Query: 3}, {Op: "subscribe", ID: 2, Query: 0}, {Op: "settle"}, {Op: "vetoOnce"}, {Op: "settle"}}})
+	for _, pause := range []int64{300, 600, 900, 1200} {
+		c02One(c, m, cnCase{Seed: 23, Actions: []cnAction{{Op: "subscribe", ID: 1, Query: 5}, {Op: "settle"}, {Op: "change", Arg: 8}, {Op: "pause", Arg: pause}, {Op: "changeM"}, {Op: "settle"}}})
+	}
 	// directed: union member switches between members without keys, the new member carrying a null object field
 	for _, q := range []int{2, 3} {
 		c02One(c, m, cnCase{Seed: 11, Actions: []cnAction{{Op: "subscribe", ID: 1, Query: q}, {Op: "settle"}, {Op: "change", Arg: 13}, {Op: "settle"},
